@@ -334,6 +334,74 @@ def inline_constants(tree, ref):
     return n
 
 
+# ---------------------------------------------------------------------------------------------- 2b. precompiled struct formats
+def inline_struct_objects(tree, ref):
+    """NAME = struct.Struct('<fmt>') unknown to the reference (module or class level, bound once):
+    NAME.pack(a..) -> struct.pack('<fmt>', a..), NAME.unpack(x) -> struct.unpack('<fmt>', x), NAME.size -> struct.calcsize('<fmt>');
+    and `a, = struct.unpack('<one field>', x)` -> `a = struct.unpack('<one field>', x)[0]`."""
+    import struct as _struct
+    known = set(ref.get('consts', []))
+    fmts = {}
+
+    def collect(body, prefix):
+        for st in body:
+            for t in _targets(st):
+                v = st.value
+                if (prefix + t) not in known and isinstance(v, ast.Call) and _txt(v.func) == 'struct.Struct' and len(v.args) == 1 and isinstance(v.args[0], ast.Constant) \
+                        and isinstance(v.args[0].value, str):
+                    fmts[t] = v.args[0].value
+    collect(tree.body, '')
+    for q, c in classes(tree):
+        collect(c.body, q + '.')
+    n = [0]
+
+    def base_name(x):
+        if isinstance(x, ast.Name):
+            return x.id
+        if isinstance(x, ast.Attribute) and isinstance(x.value, ast.Name) and x.value.id in ('self', 'cls'):
+            return x.attr
+        return None
+
+    class T(ast.NodeTransformer):
+        def visit_Call(self, node):
+            self.generic_visit(node)
+            f = node.func
+            if isinstance(f, ast.Attribute) and f.attr in ('pack', 'unpack', 'unpack_from', 'iter_unpack') and base_name(f.value) in fmts:
+                n[0] += 1
+                return ast.copy_location(ast.Call(func=ast.Attribute(value=ast.Name(id='struct', ctx=ast.Load()), attr=f.attr, ctx=ast.Load()),
+                                                  args=[ast.Constant(value=fmts[base_name(f.value)])] + node.args, keywords=node.keywords), node)
+            return node
+
+        def visit_Attribute(self, node):
+            self.generic_visit(node)
+            if node.attr == 'size' and isinstance(node.ctx, ast.Load) and base_name(node.value) in fmts:
+                n[0] += 1
+                return ast.copy_location(ast.Constant(value=_struct.calcsize(fmts[base_name(node.value)])), node)
+            return node
+    if fmts:
+        for i, st in enumerate(tree.body):
+            tree.body[i] = T().visit(st)
+    # a, = struct.unpack('<one field>', x)
+    for node in ast.walk(tree):
+        for f in ('body', 'orelse', 'finalbody'):
+            b = getattr(node, f, None)
+            if not isinstance(b, list):
+                continue
+            for st in b:
+                if isinstance(st, ast.Assign) and len(st.targets) == 1 and isinstance(st.targets[0], (ast.Tuple, ast.List)) and len(st.targets[0].elts) == 1 and \
+                        isinstance(st.value, ast.Call) and _txt(st.value.func) == 'struct.unpack' and st.value.args and isinstance(st.value.args[0], ast.Constant) and \
+                        isinstance(st.value.args[0].value, str):
+                    try:
+                        one = len(_struct.unpack(st.value.args[0].value, bytes(_struct.calcsize(st.value.args[0].value)))) == 1
+                    except Exception:
+                        one = False
+                    if one and _txt(st) not in ref.get('single_unpacks', []):
+                        st.targets = [st.targets[0].elts[0]]
+                        st.value = ast.copy_location(ast.Subscript(value=st.value, slice=ast.Constant(value=0), ctx=ast.Load()), st.value)
+                        n[0] += 1
+    return n[0]
+
+
 # ---------------------------------------------------------------------------------------------- 3. helpers
 def _simple_arg(a):
     return not any(isinstance(x, (ast.Call, ast.Await, ast.Yield, ast.YieldFrom, ast.NamedExpr, ast.Lambda)) for x in ast.walk(a))
@@ -1107,6 +1175,7 @@ def normalise(tree, path, ref_locals):
         return {}
     out = {}
     for name, fn in (('attributes', lambda: rename_attributes(tree, ref)), ('constants', lambda: inline_constants(tree, ref)),
+                     ('structs', lambda: inline_struct_objects(tree, ref)),
                      ('helpers', lambda: inline_helpers(tree, ref)), ('ifexps', lambda: expand_ifexps(tree, ref)),
                      ('unrolled', lambda: unroll_loops(tree, ref)),
                      ('comprehensions', lambda: expand_comprehensions(tree, ref)),
